@@ -122,9 +122,9 @@ func genTimeoutString(t *core.Tape, grpc bool, notes map[string]int) (string, st
 	case 7: // embedded space
 		notes["ts_embedded_space"]++
 		return "1 0" + unit, "malformed"
-	case 8: // signs: the statement is silent
+	case 8: // a sign is not a digit: the grammars say "positive integer as ASCII string of at most N digits"
 		notes["ts_sign"]++
-		return string("+-"[t.Choose(2, "sign")]) + digits(t, 1+t.Choose(3, "n"), false) + unit, "dontcare"
+		return string("+-"[t.Choose(2, "sign")]) + digits(t, 1+t.Choose(3, "n"), false) + unit, "malformed"
 	case 9: // too many digits
 		notes["ts_too_many_digits"]++
 		n := maxd + 1 + t.Choose(4, "extra")
@@ -150,9 +150,6 @@ func genTimeoutString(t *core.Tape, grpc bool, notes map[string]int) (string, st
 		}
 		if err == nil {
 			return s, "gram"
-		}
-		if s[0] == '+' || s[0] == '-' {
-			return s, "dontcare"
 		}
 		return s, "malformed"
 	}
@@ -233,6 +230,16 @@ func genC10(t *core.Tape, tier string) *Scenario {
 	}
 	genYield(t, p)
 	sc.Calls = []*CallPlan{p}
+	if p.Raw == nil && p.Kind == KUnary && p.Deadline > 0 && t.Bool(1, 2, "resend.request") {
+		// the caller sends the very same Request object again, this time with a
+		// shorter deadline: the timeout on the wire must be the new one
+		q := *p
+		q.ID = callID(1)
+		q.ReuseRequestOf = p.ID
+		q.Deadline = p.Deadline/time.Duration(2+t.Choose(1000, "resend.div")) + 1
+		sc.Calls = append(sc.Calls, &q)
+		sc.Notes["request_object_resent"]++
+	}
 	return sc
 }
 
